@@ -92,6 +92,8 @@ def to_str(tree, style=0, parent=0, right=False):
     sp = "" if style == 2 else " "
     if k == "num":
         v = tree[1]
+        if isinstance(v, int) and not isinstance(v, bool):
+            return str(v) if v >= 0 else f"({v})"        # integer literal, spelled without a decimal point
         return repr(float(v)) if v >= 0 else f"({repr(float(v))})"
     if k == "var":
         return tree[1]
